@@ -19,6 +19,7 @@
 -/
 import BMV.Proofs.Refine
 import BMV.Proofs.RefinePipe
+import BMV.Proofs.RefineRom
 namespace BMV.Props.C01
 open BMV BMV.Bits BMV.Refine
 
@@ -143,6 +144,103 @@ theorem onlyDestRegs_sound (a : Arch) (prog : List Bits) (used : String → List
     Rtl.cycleOpt a used prog s p = Rtl.cycle a prog s p :=
   onlyDestRegs_sound' a prog used s p hused husedS hws hlen hpc
 
+/-! ### `ro2rri`: the ROM read as data (program words and the data that follows them)
+
+The simulator retires the instruction in one step, the hardware takes two clocks (address out, word
+in), so the comparison is at the retire point: after the second clock.  `Isa.stepRom` / `Rtl.cycleRom`
+are the models with the ROM contents (program ++ data) as a parameter; on every other opcode they
+are `Isa.step` / `Rtl.cycle`. -/
+
+/-- one `ro2rri`: the first clock moves no architectural register, after the second the two worlds
+    are related again (the destination register holds the low `min Rsize W` bits of the addressed
+    ROM cell in both) and the hardware's flag is back down -/
+theorem rtl_refines_isa_romread (a : Arch) (prog data : List Bits) (s : VmState) (h : RtlState) (w : Bits)
+    (H : RomHyp a prog data s h w) (p1 p2 : PortsIn) :
+    ∃ s', Isa.stepRom a prog data s = some s' ∧
+      (Rtl.cycleRom a prog data h p1).pc = h.pc ∧
+      (Rtl.cycleRom a prog data h p1).regs = h.regs ∧
+      (Rtl.cycleRom a prog data h p1).auxo = h.auxo ∧
+      Rel s' (Rtl.cycleRom a prog data (Rtl.cycleRom a prog data h p1) p2) ∧
+      (Rtl.cycleRom a prog data (Rtl.cycleRom a prog data h p1) p2).romReady = false :=
+  refine_rom H p1 p2
+
+/-- the relation carried from retire point to retire point -/
+def Sim (a : Arch) (prog : List Bits) (s : VmState) (h : RtlState) : Prop :=
+  Rel s h ∧ PipeRel a prog s h ∧ h.romReady = false
+
+theorem sim_init (a : Arch) (prog : List Bits) (hr : Rel (Isa.init a) (Rtl.reset a)) :
+    Sim a prog (Isa.init a) (Rtl.reset a) := ⟨hr, pipeRel_init a prog, rfl⟩
+
+/-- a step of a one-clock or pipelined opcode in the model with the ROM parameter is the plain step -/
+theorem lockstep_is_stepRom (a : Arch) (prog data : List Bits) (s s' : VmState) (h : RtlState) (p : PortsIn)
+    (w : Bits) (op : String) (H : StepHyp a prog s h p w op s') :
+    Isa.stepRom a prog data s = some s' ∧ Rtl.cycleRom a prog data h p = Rtl.cycle a prog h p := by
+  have hne : op ≠ "ro2rri" := by
+    intro e; have := H.lock; rw [e] at this; revert this; decide
+  constructor
+  · rw [stepRom_eq_step a prog data s (fun w' hw' => by
+      rw [H.fetch] at hw'; cases hw'; rw [H.decode]; exact fun e => hne (Option.some.inj e))]
+    exact H.step
+  · apply cycleRom_eq_cycle
+    · rw [← H.rel.1]; exact (List.getElem?_eq_some_iff.mp H.fetch).1
+    · rw [← H.rel.1, fetch_eq H.fetch, curOp_eq H]
+      exact fun e => hne (Option.some.inj e)
+
+theorem pipelined_is_stepRom (a : Arch) (prog data : List Bits) (s s' : VmState) (h : RtlState) (p : PortsIn)
+    (w : Bits) (op : String) (H : PipeHyp a prog s h p w op s') :
+    Isa.stepRom a prog data s = some s' ∧ Rtl.cycleRom a prog data h p = Rtl.cycle a prog h p := by
+  have hne : op ≠ "ro2rri" := by
+    intro e; have := H.pipe; rw [e] at this; revert this; decide
+  constructor
+  · rw [stepRom_eq_step a prog data s (fun w' hw' => by
+      rw [H.fetch] at hw'; cases hw'; rw [H.decode]; exact fun e => hne (Option.some.inj e))]
+    exact H.step
+  · apply cycleRom_eq_cycle
+    · rw [← H.rel.1]; exact (List.getElem?_eq_some_iff.mp H.fetch).1
+    · rw [← H.rel.1, fetch_eq H.fetch, (curOp_pipe H.ws H.wlen H.decode H.pipe).1]
+      exact fun e => hne (Option.some.inj e)
+
+/-- runs over programs that mix one-clock, pipelined and ROM-reading opcodes: from retire point to
+    retire point (one clock, one tick of two, two clocks) -/
+inductive RunR (a : Arch) (prog data : List Bits) : VmState → RtlState → VmState → RtlState → Prop
+  | nil (s h) : RunR a prog data s h s h
+  | lock (s s' h p p' w op sN hN) :
+      StepHyp a prog s h p w op s' →
+      RunR a prog data (setEnv s' p') (Rtl.cycleRom a prog data h p) sN hN →
+      RunR a prog data s h sN hN
+  | pipe (s s' h p p' w op sN hN) :
+      PipeHyp a prog s h p w op s' →
+      RunR a prog data (setEnv s' p') (Rtl.cycleRom a prog data h p) sN hN →
+      RunR a prog data s h sN hN
+  | rom (s s' h p1 p2 p' w sN hN) :
+      RomHyp a prog data s h w → Isa.stepRom a prog data s = some s' →
+      RunR a prog data (setEnv s' p') (Rtl.cycleRom a prog data (Rtl.cycleRom a prog data h p1) p2) sN hN →
+      RunR a prog data s h sN hN
+
+/-- equal traces at every retire point, for programs over the whole co-implemented one-processor
+    opcode set (one-clock, pipelined, ROM-reading) -/
+theorem trace_eq_romread (a : Arch) (prog data : List Bits) (s sN : VmState) (h hN : RtlState)
+    (hsim : Sim a prog s h) (hrun : RunR a prog data s h sN hN) : Sim a prog sN hN := by
+  induction hrun with
+  | nil s h => exact hsim
+  | lock s s' h p p' w op sN hN H _ ih =>
+    obtain ⟨hr, hp, hrd⟩ := hsim
+    rw [(lockstep_is_stepRom a prog data s s' h p w op H).2] at ih
+    have hr0 := refine_lockstep H
+    have hp0 := lockstep_keeps_pipe H hp
+    exact ih ⟨⟨hr0.1, hr0.2.1, hr0.2.2⟩, hp0, by rw [(cycle_rom_regs a prog h p).1]; exact hrd⟩
+  | pipe s s' h p p' w op sN hN H _ ih =>
+    obtain ⟨_, _, hrd⟩ := hsim
+    rw [(pipelined_is_stepRom a prog data s s' h p w op H).2] at ih
+    obtain ⟨hr0, hp0⟩ := refine_pipe H
+    exact ih ⟨⟨hr0.1, hr0.2.1, hr0.2.2⟩, hp0, by rw [(cycle_rom_regs a prog h p).1]; exact hrd⟩
+  | rom s s' h p1 p2 p' w sN hN H hs _ ih =>
+    obtain ⟨_, hp, _⟩ := hsim
+    obtain ⟨s2, hs2, _, _, _, hr2, hrd2⟩ := refine_rom H p1 p2
+    rw [hs] at hs2; cases hs2
+    have hp2 := rom_keeps_pipe H hp p1 p2 hs
+    exact ih ⟨⟨hr2.1, hr2.2.1, hr2.2.2⟩, hp2, hrd2⟩
+
 /-! ### non-vacuity: a concrete machine and program satisfy every hypothesis, step after step -/
 
 def demoArch : Arch :=
@@ -215,5 +313,37 @@ example : ∃ s', PipeHyp demoArchP demoProgP { Isa.init demoArchP with pc := 2,
       rcases hop with rfl | rfl | rfl <;> simp [Isa.init, Rtl.reset, RtlState.getPipe],
     fetch := by decide, decode := by decide, pipe := by decide, width := by decide,
     step := by decide, noFall := by decide }
+
+/-- `ro2rri`, concretely: `rset r1 4; ro2rri r0 r1; j 2` with two data words after the program —
+    cell 4 is the second data word; the hardware takes one clock more than the simulator -/
+def demoArchR : Arch :=
+  { rsize := 8, r := 1, n := 0, m := 0, l := 0, o := 3, ops := ["j", "ro2rri", "rset"] }
+def demoProgR : List Bits :=
+  [ofString01 "10100000100", ofString01 "01010000000", ofString01 "00010000000"]
+def demoDataR : List Bits := [ofString01 "00000000111", ofString01 "01011111110"]
+
+example : demoArchR.maxWord = 11 := by decide
+example :
+    (((some (Isa.init demoArchR)).bind (Isa.stepRom demoArchR demoProgR demoDataR)).bind
+      (Isa.stepRom demoArchR demoProgR demoDataR)).map (fun s => (s.pc, s.regs)) = some (2, [254, 4]) := by decide
+example :
+    let c := fun h => Rtl.cycleRom demoArchR demoProgR demoDataR h {}
+    ((c (Rtl.reset demoArchR)).regs, (c (c (Rtl.reset demoArchR))).pc, (c (c (Rtl.reset demoArchR))).romReady,
+     (c (c (c (Rtl.reset demoArchR)))).pc, (c (c (c (Rtl.reset demoArchR)))).regs) =
+    ([0, 4], 1, true, 2, [254, 4]) := by decide
+
+/-- the premises of `rtl_refines_isa_romread` are satisfiable: the `ro2rri` above -/
+example : RomHyp demoArchR demoProgR demoDataR { Isa.init demoArchR with pc := 1, regs := [0, 4] }
+    { Rtl.reset demoArchR with pc := 1, regs := [0, 4] } (ofString01 "01010000000") :=
+  { ws := rfl, wlen := by decide, regsLen := by decide, rel := ⟨rfl, rfl, rfl⟩, ready := rfl,
+    fetch := by decide, decode := by decide, rsize := by decide, fits := by decide,
+    inRom := by
+      intro loc hl
+      have : loc = 4 := by
+        have h4 : ({ Isa.init demoArchR with pc := 1, regs := [0, 4] } : VmState).regs[
+            Isa.field ((ofString01 "01010000000").drop demoArchR.opBits) demoArchR.r demoArchR.r]? = some 4 := by decide
+        rw [h4] at hl; exact (Option.some.inj hl).symm
+      subst this; decide,
+    noFall := by decide }
 
 end BMV.Props.C01
